@@ -29,7 +29,7 @@ from . import common, sessionlib, modlib
 
 KINDS = ('pass', 'failout', 'failexc', 'failcompile', 'faildirective', 'skipall', 'skippart', 'expexc', 'comment', 'disabled', 'disabledfail', 'needell')
 BOUNDS = {'quick': dict(n=3, limit=12000, cli=40), 'thorough': dict(n=4, limit=60000, cli=400)}
-OPTS = {'none': '', 'skip': '+SKIP', 'noell': '-ELLIPSIS'}
+OPTS = {'none': '', 'skip': '+SKIP', 'noell': '-ELLIPSIS', 'req': '+REQUIRES(module:xdv_nope_q)'}
 _J = {}
 
 
@@ -50,7 +50,7 @@ def _one(raw):
     if c == 'list':
         verbose = max(1, verbose)       # the listing is ordinary (level 1) output; verbosity 0 means quiet
     style = ['auto', 'google', 'freeform'][rot % 3] if rot % 2 == 0 else ['auto', 'freeform'][rot % 2]
-    config = {'default_runtime_state': {'none': {}, 'skip': {'SKIP': True}, 'noell': {'ELLIPSIS': False}}[case['opt']]}
+    config = {'default_runtime_state': {'none': {}, 'skip': {'SKIP': True}, 'noell': {'ELLIPSIS': False}, 'req': {'REQUIRES': {'module:xdv_nope_q'}}}[case['opt']]}
     bad = []
     try:
         with sessionlib.Env(1):
@@ -73,7 +73,7 @@ def _one(raw):
             # each gathered doctest ran exactly once, in order
             expT = []
             for i in sorted(case['verdict']):
-                if case['opt'] != 'skip':
+                if case['opt'] not in ('skip', 'req'):
                     expT += sessionlib.kind_trace(kinds[i - 1], i - 1)
             if (res['T'] or []) != expT:       # T is None when the module was never imported (nothing ran)
                 bad.append(('executed_statements', expT, res['T']))
@@ -129,7 +129,7 @@ def run(tier):
     out.rule = ('every module of <= %d doctests over 10 outcome kinds x commands {all, list, <name:num>, <name>} x default options {none, +SKIP, -ELLIPSIS} in '
                 'Session.tla (native front end); replay sampled where stated' % b['n'])
     raws = sessionlib.run_tlc_cases(out, 'native<=%d' % b['n'], kinds=KINDS, maxdocs=b['n'], commands=('all', 'list', 'named', 'namedfunc'),
-                                    fronts=('native',), opts=('none', 'skip', 'noell'))
+                                    fronts=('native',), opts=('none', 'skip', 'noell', 'req'))
     if b['limit'] and len(raws) > b['limit']:
         import random
         raws = random.Random(common.seed()).sample(raws, b['limit'])
